@@ -1,7 +1,11 @@
 import ServlinVerif.Props.C07
+import ServlinVerif.Props.C07Prefix
 open Servlin.C07
 #print axioms C07_decode_encode
 #print axioms C07_shape
 #print axioms C07_error_truncates
 #print axioms C07_one_terminator
 #print axioms C07_piece_bound
+#print axioms C07_no_false_complete
+#print axioms decode_extend
+#print axioms C07_error_output_is_prefix
